@@ -77,6 +77,9 @@ func (r *raceLog) poll() []raceReport {
 			l := strings.TrimSpace(cur[i])
 			if strings.HasPrefix(l, "Write at") || strings.HasPrefix(l, "Read at") || strings.HasPrefix(l, "Previous write at") || strings.HasPrefix(l, "Previous read at") {
 				// frames follow as pairs of lines: function, location
+				// the access is attributed to the innermost frame of the repository's production code, provided no
+				// harness / shim frame lies between it and the access (library code called by production code - the JSON
+				// encoder reading a snapshot, a map operation - acts on behalf of that production frame)
 				acc := ""
 				for j := i + 1; j+1 < len(cur); j += 2 {
 					fn := strings.TrimSpace(cur[j])
@@ -84,14 +87,17 @@ func (r *raceLog) poll() []raceReport {
 					if fn == "" {
 						break
 					}
-					if strings.HasPrefix(fn, "runtime.") || strings.HasPrefix(fn, "sync.") || strings.HasPrefix(fn, "sync/atomic.") || strings.HasPrefix(fn, "internal/") || strings.HasPrefix(fn, "reflect.") {
+					locFile := strings.Fields(loc)
+					if len(locFile) == 0 {
 						continue
 					}
-					locFile := strings.Fields(loc)
-					if len(locFile) > 0 && productionFrame(fn, locFile[0]) {
-						acc = fn + " " + locFile[0]
+					if strings.HasPrefix(locFile[0], "/verif/") || strings.HasPrefix(locFile[0], "/repo/zverif/") || strings.Contains(locFile[0], "_verif.go") || strings.Contains(locFile[0], "/.vp/") {
+						break
 					}
-					break
+					if productionFrame(fn, locFile[0]) {
+						acc = fn + " " + locFile[0]
+						break
+					}
 				}
 				accs = append(accs, acc)
 			}
